@@ -14,6 +14,7 @@ From Irismod Require Genesis.Token Genesis.TokenProofs.
 From Irismod Require Genesis.Nft Genesis.NftProofs.
 From Irismod Require Genesis.Random Genesis.RandomProofs.
 From Irismod Require Genesis.Farm Genesis.FarmProofs.
+From Irismod Require Genesis.Oracle Genesis.OracleProofs.
 
 (** ** record *)
 Module RecordC12.
@@ -275,3 +276,48 @@ Print Assumptions farm_queries_preserved.
 Example farm_nonvacuous : invb true 4 wit_s = true /\ queue_at 4 (pools wit_s) = [((11, 1), tt)].
 Proof. split; vm_compute; reflexivity. Qed.
 End FarmC12.
+
+(** ** oracle.  [e] = the service module's request contexts (id -> state, batch counter) as the
+    chain in question knows them. *)
+Module OracleC12.
+Import Genesis.Oracle Genesis.OracleProofs.
+
+Theorem oracle_export_validates :
+  forall (e : env) (s : state), invb s = true -> validate (export e s) = true.
+Proof. exact oracle_export_validates_lemma. Qed.
+Print Assumptions oracle_export_validates.
+
+(** as stated it FAILS: a feed whose request context the new chain's service module does not know
+    (e.g. because the service genesis itself did not import) makes InitGenesis panic *)
+Theorem oracle_import_total_refuted : exists e g, validate g = true /\ import e g = None.
+Proof. exact oracle_import_total_refuted_lemma. Qed.
+Print Assumptions oracle_import_total_refuted.
+
+Theorem oracle_import_total_partial :
+  forall (e : env) (g : genesis),
+    validate g = true -> (forall en, In en g -> has (o_ctx (fst (fst en))) e = true) -> import e g <> None.
+Proof. exact oracle_import_total_partial_lemma. Qed.
+Print Assumptions oracle_import_total_partial.
+
+(** export . import . export = export FAILS: InitGenesis stores every exported value of a feed under
+    the same key (the context's current batch counter), so one value survives — the oldest
+    (known finding oracle-feed-value-history-lost-on-import) *)
+Theorem oracle_export_fixpoint_refuted :
+  exists e s s', invb s = true /\ import e (export e s) = Some s' /\ export e s' <> export e s.
+Proof. exact oracle_export_fixpoint_refuted_lemma. Qed.
+Print Assumptions oracle_export_fixpoint_refuted.
+
+Theorem oracle_queries_preserved_refuted :
+  exists e s s', invb s = true /\ import e (export e s) = Some s'
+                 /\ values_of s 0 = [(4, 1700000020); (3, 1700000010)] /\ values_of s' 0 = [(3, 1700000010)].
+Proof. exact oracle_queries_preserved_refuted_lemma. Qed.
+Print Assumptions oracle_queries_preserved_refuted.
+
+(** ... what does hold: the feeds themselves are preserved *)
+Theorem oracle_queries_preserved_partial :
+  forall (eA eB : env) (s s' : state),
+    invb s = true -> (forall f, In f (feeds s) -> has (o_ctx (snd f)) eA = true) ->
+    import eB (export eA s) = Some s' -> feeds s' = feeds s.
+Proof. exact oracle_feeds_preserved_lemma. Qed.
+Print Assumptions oracle_queries_preserved_partial.
+End OracleC12.
